@@ -229,9 +229,10 @@ class Result:
 
 
 class Project:
-    def __init__(self, contracts):
+    def __init__(self, contracts, base=None):
+        """base: parent directory for the project (default: the system temp dir)"""
         self.contracts = list(contracts)
-        self.dir = Path(tempfile.mkdtemp(prefix="verif_l3_"))
+        self.dir = Path(tempfile.mkdtemp(prefix="verif_l3_", dir=base))
         self._write()
 
     def _write(self):
@@ -282,6 +283,46 @@ class Project:
 
     def __exit__(self, *a):
         self.cleanup()
+
+
+# ----------------------------------------------------------------------------- worker pool for L3 runs
+
+def _file_worker(arg):
+    import importlib
+
+    mod, name, task, out = arg
+    res = getattr(importlib.import_module(mod), name)(task)
+    with open(out + ".tmp", "w") as f:
+        json.dump(res, f)
+    os.rename(out + ".tmp", out)
+    return True
+
+
+def run_pool(fn, tasks, timeout=150, total_timeout=None, workers=None):
+    """harness/pool.run_tasks for L3 workers: `fn` (module-level, JSON-able result) gets each task
+    dict extended with "_base" (a scratch directory removed afterwards: create projects with
+    Project(..., base=task["_base"])).  Results travel through files, so that killing a worker on
+    timeout can never leave a half-written message in the shared result queue.
+    -> list of (status, value) like pool.run_tasks"""
+    from harness import pool
+
+    base = tempfile.mkdtemp(prefix="verif_l3pool_")
+    try:
+        args = [(fn.__module__, fn.__name__, dict(t, _base=base), os.path.join(base, f"result{i}.json")) for i, t in enumerate(tasks)]
+        res = pool.run_tasks(_file_worker, args, timeout=timeout, workers=workers, total_timeout=total_timeout)
+        out = []
+        for (st, val), a in zip(res, args):
+            if st == "ok":
+                try:
+                    with open(a[3]) as f:
+                        out.append(("ok", json.load(f)))
+                except Exception as e:  # noqa: BLE001
+                    out.append(("exc", f"result file unreadable: {e}"))
+            else:
+                out.append((st, val))
+        return out
+    finally:
+        shutil.rmtree(base, ignore_errors=True)
 
 
 # ----------------------------------------------------------------------------- reference side
